@@ -26,8 +26,8 @@ def float(x):  # noqa: A001 — overflow-safe: a huge exact rational becomes ±i
 
 
 ID = "C01"
-LEAN_TARGETS = ["Strengths.Props.C01", "Strengths.Props.C01Dxdtf", "Strengths.Props.C01Total", "Strengths.Props.C01Marshal", "Strengths.Props.C01Units"]
-PROP_FILES = ["Strengths/Props/C01.lean", "Strengths/Props/C01Dxdtf.lean", "Strengths/Props/C01Total.lean", "Strengths/Props/C01Marshal.lean", "Strengths/Props/C01Units.lean"]
+LEAN_TARGETS = ["Strengths.Props.C01", "Strengths.Props.C01Dxdtf", "Strengths.Props.C01Total", "Strengths.Props.C01Marshal", "Strengths.Props.C01Units", "Strengths.Props.C01Build"]
+PROP_FILES = ["Strengths/Props/C01.lean", "Strengths/Props/C01Dxdtf.lean", "Strengths/Props/C01Total.lean", "Strengths/Props/C01Marshal.lean", "Strengths/Props/C01Units.lean", "Strengths/Props/C01Build.lean"]
 GEN_GROUPS = ["Units", "IndexPy", "EngineCpp", "KineticsPy"]
 RULE = ("random reaction networks (1-3 species, 0-3 reactions, orders 0-4 per side incl. empty sides and repeated species, "
         "scalar / per-environment k, D, density with and without 'default', zeros) on grids (w,h,d with all mixes of "
@@ -643,7 +643,9 @@ def run(ctx):
             jb["sysj"] = L.sys_json(jb["system"], edges_si=jb["phys"]["edge"])
         run_euler(ctx, pj)
     ctx.notes.append("any engine units system: Props/C01Units.lean (marshal_euler_general_units_graph/_grid, kinetics_marshal_euler_agree_*_units) "
-                     "under DimWF / EdgesWF; op pysys_dimwf evaluates that hypothesis on every system the package built")
+                     "under DimWF / EdgesWF; op pysys_dimwf evaluates that hypothesis on every system the package built; "
+                     "Props/C01Build.lean: buildSystem_wf (every description the builders accept gives a DimWF system) and the composite "
+                     "built_marshal_euler_general_units_grid/_graph")
     ctx.notes.append("partial theorems: see Props/C01.lean header (grid statements carry the geometry hypotheses PyGridOK / EngGridOK)")
 
 
